@@ -16,7 +16,7 @@ NAME = "clocksim"
 SIM_UNIT = "clock ticks"
 BUDGET = {"quick": {"runs": 12000, "wall": 80}, "thorough": {"runs": 150000, "wall": 1200}}
 SHRINK_LISTS = ("ops",)
-PROBES = {"C15": ["jump-back", "jump-forward", "jump-tensor", "reset-nonzero", "refpoint-default",
+PROBES = {"C15": ["refpoint-same-state-new-time", "jump-back", "jump-forward", "jump-tensor", "reset-nonzero", "refpoint-default",
                   "refpoint-explicit", "read-after-call-since-refpoint", "read-after-jump-since-refpoint",
                   "ltv-wrap", "batched-lti", "float-reftime"]}
 TOL = 1e-10
@@ -32,7 +32,8 @@ def generate(seed, tier, prop="C15"):
     ro = rng.stream(seed, "ops")
     n_ops = ro.randint(2, 40 if tier == "thorough" else 25)
     w = {"call": 5, "read": 3, "readtime": 1, "reset": ro.choice([0, 1, 2]), "settime": ro.choice([0, 1, 2]),
-         "setref": ro.choice([1, 2]) if kind != "LTI" else 0, "setref_default": ro.choice([0, 1, 2]) if kind == "NLS" else 0}
+         "setref": ro.choice([1, 2]) if kind != "LTI" else 0, "setref_default": ro.choice([0, 1, 2]) if kind == "NLS" else 0,
+         "setref_same": ro.choice([0, 1, 1]) if kind == "NLS" else 0}
     names = [k for k in w if w[k] > 0]
     ops = []
     if kind == "NLS" and ro.random() < 0.7:
@@ -40,10 +41,10 @@ def generate(seed, tier, prop="C15"):
     for i in range(n_ops):
         op = ro.choices(names, [w[k] for k in names])[0]
         o = {"id": i, "op": op}
-        if op in ("reset", "settime", "setref"):
+        if op in ("reset", "settime", "setref", "setref_same"):
             o["t"] = ro.choice([0, 0, 1, 2, 3, 5, 7, 11, 30]) if ro.random() < 0.8 else ro.randint(0, 60)
-            o["tform"] = ro.choice(["int", "i0", "i1"]) if op != "reset" else "int"
-            if o["tform"] == "i1" and not (op == "setref" and kind == "NLS"):
+            o["tform"] = ro.choice(["int", "i0", "i1"]) if op != "reset" else ro.choice(["int", "int", "i0"])
+            if o["tform"] == "i1" and not (op in ("setref", "setref_same") and kind == "NLS"):
                 o["tform"] = "i0"       # a 1-d tensor is a time only for NLS.set_refpoint (atleast_1d)
             if op == "setref" and kind == "NLS" and ro.random() < 0.15:
                 o["tform"] = "f0"
@@ -152,11 +153,7 @@ def _t_arg(o):
 def _close(a, b, what, step, key, tol=TOL):
     a = np.asarray(a, dtype=np.float64); b = np.asarray(b, dtype=np.float64)
     if a.shape != b.shape:
-        try:
-            a2 = a.reshape(b.shape)
-        except ValueError:
-            raise Violation("C15.shape", "%s: shape %s, expected %s" % (what, a.shape, b.shape), step, key + ":shape")
-        a = a2
+        raise Violation("C15.shape", "%s: shape %s, expected %s" % (what, a.shape, b.shape), step, key + ":shape")
     err = np.abs(a - b).max() if a.size else 0.0
     if not err <= tol * (1 + np.abs(b).max() if b.size else 1):
         raise Violation("C15." + key.split(":")[0], "%s differs from the reference model by %.3e" % (what, err), step, key)
@@ -201,8 +198,10 @@ def execute(plan, prop, out, tr):
         return res
 
     clock = 0
+    handed = []             # (tensor handed to the system as a time, its value then, op id): callers' tensors stay theirs
     last_xu = None
     ref = None              # (x*, u*, t*) as values
+    ref_t = None            # the tensors handed over as x*, u*
     calls_since_ref = jumps_since_ref = 0
     prev = "init"
     for o in plan["ops"]:
@@ -228,7 +227,7 @@ def execute(plan, prop, out, tr):
             if not (torch.equal(x, xb) and torch.equal(u, ub)):
                 raise Violation("C15.mutation", "system call modified its arguments", i, "mutation")
             clock += 1
-            last_xu = (npd(x), npd(u))
+            last_xu = (npd(x), npd(u)); last_xu_t = (x, u)
             calls_since_ref += 1
             out.sim_time += 1
             tr.ev("call", i, xn, y)
@@ -236,22 +235,29 @@ def execute(plan, prop, out, tr):
             if o["t"] == 0 and o["id"] % 2 == 0:
                 sysm.reset()
             else:
-                sysm.reset(o["t"])
+                ta = _t_arg(o)
+                if torch.is_tensor(ta):
+                    handed.append((ta, ta.clone(), i)); out.probe("jump-tensor")
+                sysm.reset(ta)
             if o["t"]:
                 out.probe("reset-nonzero")
             out.fault("clock-jump-" + ("back" if o["t"] < clock else "forward" if o["t"] > clock else "same"))
             out.probe("jump-back" if o["t"] < clock else "jump-forward")
             clock = o["t"]; jumps_since_ref += 1
         elif op == "settime":
-            sysm.systime = _t_arg(o)
-            if o.get("tform") != "int":
-                out.probe("jump-tensor")
+            ta = _t_arg(o)
+            if torch.is_tensor(ta):
+                handed.append((ta, ta.clone(), i)); out.probe("jump-tensor")
+            sysm.systime = ta
             out.fault("clock-jump-" + ("back" if o["t"] < clock else "forward" if o["t"] > clock else "same"))
             out.probe("jump-back" if o["t"] < clock else "jump-forward")
             clock = o["t"]; jumps_since_ref += 1
         elif op == "setref":
             if kind == "LTV":
-                sysm.set_refpoint(t=_t_arg(o))
+                ta = _t_arg(o)
+                if torch.is_tensor(ta):
+                    handed.append((ta, ta.clone(), i))
+                sysm.set_refpoint(t=ta)
                 out.fault("clock-jump-" + ("back" if o["t"] < clock else "forward" if o["t"] > clock else "same"))
                 clock = o["t"]
             elif kind == "NLS":
@@ -262,14 +268,27 @@ def execute(plan, prop, out, tr):
                 tval = float(ta.reshape(-1)[0])
                 if o.get("tform") == "f0":
                     out.probe("float-reftime")
+                handed.append((ta, ta.clone(), i))
                 sysm.set_refpoint(state=xs, input=us, t=ta)
                 ref = (npd(xs), npd(us), tval)
+                ref_t = (xs, us)
                 calls_since_ref = jumps_since_ref = 0
                 out.probe("refpoint-explicit")
+        elif op == "setref_same":
+            # the same (x*, u*) tensors again, another reference time
+            if kind == "NLS" and ref is not None and ref_t is not None:
+                ta = _t_arg(o)
+                if not torch.is_tensor(ta):
+                    ta = torch.tensor(ta, dtype=torch.int64)
+                handed.append((ta, ta.clone(), i))
+                sysm.set_refpoint(state=ref_t[0], input=ref_t[1], t=ta)
+                ref = (ref[0], ref[1], float(ta.reshape(-1)[0]))
+                calls_since_ref = jumps_since_ref = 0
+                out.probe("refpoint-same-state-new-time")
         elif op == "setref_default":
             if kind == "NLS" and last_xu is not None:
                 sysm.set_refpoint()
-                ref = (last_xu[0], last_xu[1], float(clock))
+                ref = (last_xu[0], last_xu[1], float(clock)); ref_t = last_xu_t
                 calls_since_ref = jumps_since_ref = 0
                 out.probe("refpoint-default")
         elif op == "read":
@@ -300,6 +319,12 @@ def execute(plan, prop, out, tr):
                     continue
                 _close(npd(got), want[k], k + why, i, "linearisation:" + kind + keyx)
             tr.ev("read", i, npd(getattr(sysm, "A")))
+        # after every operation: tensors the caller handed over as times still hold the caller's values
+        for tt, val, oid in handed:
+            if not torch.equal(tt, val):
+                raise Violation("C15.mutation", "after op %s (#%d): the tensor passed as a time at op #%d now holds %s, the "
+                                "caller gave %s (the system clock aliases the caller's tensor)" % (op, i, oid, tt.tolist(), val.tolist()),
+                                i, "mutation:time-arg")
         # after every operation: the clock
         st = sysm.systime
         if not (torch.is_tensor(st) and st.numel() == 1 and int(st) == clock):
@@ -309,7 +334,7 @@ def execute(plan, prop, out, tr):
         out.ops += 1
         out.sigs.add("%s|%s|%s|ref%s" % (kind, prev, op, ref is not None))
         prev = op
-    out.nontrivial = any(o["op"] in ("reset", "settime", "setref", "setref_default") for o in plan["ops"])
+    out.nontrivial = any(o["op"] in ("reset", "settime", "setref", "setref_default", "setref_same") for o in plan["ops"])
 
 
 def describe(prop):
